@@ -88,7 +88,9 @@ CFG = {
             "retries 0..max, max 0..5) on reachable registries (built by real reports and probes), interleaved at repository-call "
             "granularity with one concurrent report, keepalive, second probe or removal placed after the probe's k-th call, with clock ticks; "
             "compared: completion order of repository calls, results, full keyspace dump; oracle: the final status word is the fold of the "
-            "clients' outcome transformations in observed commit order, and the re-queue discipline of a retried probe; non-trivial = table "
+            "clients' outcome transformations in observed commit order (at the address of the probe under test), and the re-queue discipline: the final queue is "
+            "the initial queue plus, per probe client that ended `retried`, one item with the same address/port/goal/max, retries+1 <= max, no expiry and a ready time "
+            "(its PQ score) of a clock value of the run + floor(e^(retries+1)) s; `outofretries` only with retries >= max; no other re-queued item; non-trivial = table "
             "case or an interleaving in which the concurrent client runs",
     "assumptions": [
         "each repository call is atomic at its commit (C09) — interleavings are generated at call granularity",
@@ -111,7 +113,13 @@ CFG = {
         "usys_two_clients_failure (= the history of probe_failure_race, any ticks) for the other two; in these bridges the concurrent client performs ONE call",
         "run-level theorems assume the store invariant that a record is stored under its own address key (`haddr`)",
     ],
-    "trusted_base": COMMON_TRUSTED,
+    "trusted_base": COMMON_TRUSTED + [
+        "driver-implemented oracle semantics in lean/Swat4/Drv/C13.lean (not Model/ or Spec/ definitions): statusIntent (which status transformation a "
+        "committed add/update of each client kind applies; built from Model successStatus/retryStatus/failureStatus), svStatus / queueItems / runClocks "
+        "(parsing of the SV, PI and PQ dump lines and of the run's clock values) and requeueCheck (new queue items with a retry count >= 1 answer exactly the "
+        "probe clients that ended `retried`, retries+1 <= max, no expiry, ready time = a clock value of the run + Model expFloor(item's retry count) seconds); "
+        "the initial status word and initial queue are taken from the model's run of the init items",
+    ],
     "manifest": {
         "text": "Lean theorems: outcome_table (all 512 x 2 x 3 cases by kernel evaluation against a per-bit declarative spec), transient_never_delists, "
                 "update_applies_to_latest (Update(f stale, resolver f) stores f(latest) at version+1 whenever versions are monotone) and its three "
